@@ -1703,19 +1703,29 @@ class Data(Container, NetCDFHDF5, Files, core.Data):
         if units is None:
             units = ""
         else:
+            if isinstance(units, (np.generic, np.ndarray)):
+                # E.g. a numeric 'units' attribute read from a dataset
+                units = units.tolist()
+
             units = f", units={units!r}"
 
         calendar = self.get_calendar(None)
         if calendar is None:
             calendar = ""
         else:
+            if isinstance(calendar, (np.generic, np.ndarray)):
+                calendar = calendar.tolist()
+
             calendar = f", calendar={calendar!r}"
 
         fill_value = self.get_fill_value(None)
         if fill_value is None:
             fill_value = ""
         else:
-            fill_value = f", fill_value={fill_value}"
+            if isinstance(fill_value, (np.generic, np.ndarray)):
+                fill_value = fill_value.tolist()
+
+            fill_value = f", fill_value={fill_value!r}"
 
         dtype = self.dtype.descr[0][1][1:]
 
